@@ -40,8 +40,8 @@ import lib
 from lib import Err
 
 ID = "C17"
-COQ_IMPORTS = "From DV Require Import Model.CacheM Model.CacheAnsM."
-COQ_RUN = "CacheAnsM.run"
+COQ_IMPORTS = "From DV Require Import Model.CacheM Model.CacheAnsM Model.CacheSpecM."
+COQ_RUN = "CacheSpecM.run"
 CASE_TIMEOUT = 10.0
 TRUSTED = [
     "model: coq/Model/CacheM.v (Cache value-level; LRUCache store-level with explicit prev/next ids; list-level spec alru)",
@@ -356,10 +356,94 @@ def new_cache(case):
 
 
 def is_concurrent(case):
-    return len(case) > (5 if case[0] == 0 else 4)
+    return case[0] in (0, 1) and len(case) > (5 if case[0] == 0 else 4)
+
+
+def is_ghost(case):
+    return case[0] in (2, 3)
+
+
+def plain(case):
+    """kinds 2/3 (with a key universe: the model also prints its ghost state) -> kinds 0/1"""
+    if case[0] == 2:
+        return [0] + list(case[1:5])
+    if case[0] == 3:
+        return [1] + list(case[1:4])
+    return case
+
+
+def spec_track(case, out):
+    """the bookkeeping the theorems speak about, kept by the harness from the calls and the
+    implementation's results only (never from the model): per step, for every key of the universe,
+    what a lookup now would have to return, how many calls ago the key was last used (put or
+    successful get), and its successful lookups since it was last stored; plus hits/misses since the
+    last reset.  The Coq definitions ideal_upd/expected/age/stats_of/key_hits must agree."""
+    lru = case[0] == 3
+    keys = case[5] if case[0] == 2 else case[4]
+    ops = case[4] if case[0] == 2 else case[3]
+    ideal, last_use, khits = {}, {}, {}
+    hits = misses = 0
+    nevents = 0
+    tracks = []
+    prev = out[0]
+
+    def keyset(st):
+        return [e[0] for e in (st[2] if lru else st[0])]
+
+    for i, op in enumerate(ops):
+        if i + 1 >= len(out) or isinstance(out[i + 1], Err):
+            break
+        ret, st = out[i + 1][0], out[i + 1][1]
+        now = st[-1]
+        code = op[0]
+        if code != 11:
+            nevents += 1
+        if code == 0:
+            if ret is not None:
+                hits += 1
+                last_use[op[1]] = nevents
+                khits[op[1]] = khits.get(op[1], 0) + 1
+            else:
+                misses += 1
+        elif code in (1, 2, 12, 13):
+            k = op[1]
+            val = next((e[1] for e in st[0] if e[0] == k), None)
+            before, after = keyset(prev), keyset(st)
+            for g in before:
+                if g not in after and g != k:
+                    ideal.pop(g, None)              # evicted
+            ideal[k] = val
+            last_use[k] = nevents
+            khits[k] = 0
+        elif code == 3:
+            ideal.pop(op[1], None)
+        elif code == 4:
+            ideal.clear()
+        elif code == 5:
+            before, after = keyset(prev), keyset(st)
+            for g in before:
+                if g not in after:
+                    ideal.pop(g, None)
+        elif code == 10:
+            hits = misses = 0
+        tracks.append([
+            [ideal[k] if (k in ideal and ideal[k] is not None and ideal[k][1] > now) else None for k in keys],
+            [nevents - last_use[k] if k in last_use else None for k in keys],
+            [hits, misses],
+            [khits.get(k, 0) for k in keys],
+        ])
+        prev = st
+    return tracks
 
 
 def impl(case):
+    if is_ghost(case):
+        out = impl(plain(case))
+        if isinstance(out, Err):
+            return out
+        out = lib.normalize(out)
+        tr = spec_track(case, out)
+        return [out[0]] + [(o if isinstance(o, Err) else [o[0], o[1], tr[i]]) for i, o in enumerate(out[1:])]
     if is_concurrent(case):
         return impl_concurrent(case)
     try:
@@ -907,7 +991,25 @@ def conc_worker(task):
 _gen_failures = []
 
 
+def ghostify(c):
+    """add the key universe: the model then prints its ghost state after every step"""
+    ops = c[3] if c[0] == 1 else c[4]
+    keys = sorted({op[1] for op in ops if op[0] in (0, 1, 2, 3, 6, 12, 13)})
+    if c[0] == 1:
+        return [3, c[1], c[2], ops, keys]
+    return [2, c[1], c[2], c[3], ops, keys]
+
+
 def cases(ctx):
+    for kind, c in cases0(ctx):
+        if c[0] in (0, 1) and not is_concurrent(c) and kind not in ("lru-long", "cache-long") \
+                and (kind.startswith("small") or kind.endswith("boundary") or ctx.rng.random() < 0.5):
+            yield kind + "+ghost", ghostify(c)
+        else:
+            yield kind, c
+
+
+def cases0(ctx):
     rng = ctx.rng
     # every sequence of length <= 3 over the small-scope alphabet goes through Coq too
     for lru, cfg in ((True, 1), (True, 2), (False, 0), (False, 2)):
@@ -1042,6 +1144,10 @@ def shrink(case, what):
 
 
 def oracle(ctx, kind, case, out):
+    if is_ghost(case):
+        gcase = case
+        case = plain(case)
+        out = out if isinstance(out, Err) else [out[0]] + [(o if isinstance(o, Err) else o[:2]) for o in out[1:]]
     fs = check_history(case, out)
     if fs and not is_concurrent(case):
         out_fs = []
